@@ -282,3 +282,17 @@ def helpers_of(mod, fn, depth=2):
                 out.append(h)
                 todo.append((h, d + 1))
     return out
+
+
+def order(root):
+    """Depth-first (source / evaluation-ish) numbering of the nodes under root: id(node) -> index.  Unlike line numbers
+    it is meaningful for statements that were expanded from a helper (they all carry the call's position)."""
+    out = {}
+
+    def go(n):
+        out[id(n)] = len(out)
+        for ch in ast.iter_child_nodes(n):
+            go(ch)
+
+    go(root)
+    return out
